@@ -143,14 +143,20 @@ def oracle_model(args):
     if rep == "adiabatic":
         gaps_ok = np.min(np.abs(np.diff(E))) > 1e-6 if N > 1 else True
         # force = -grad E_i  (state energies along each coordinate, sign-tracked states)
+        # neighbouring points are requested either on the shared model object or on the result itself
+        # (`elec.update(y, elec)`, the idiom of mudslide/surface.py); the result `el` must keep describing ITS point
+        chained = bool(args.get("chained"))
+
         def energies(y):
-            return np.diag(np.asarray(model.update(y, electronics=el).hamiltonian()))
+            e2 = el.update(y, electronics=el) if chained else model.update(y, electronics=el)
+            return np.diag(np.asarray(e2.hamiltonian()))
         for k in range(n):
             tol = 2e-6 * (float(np.max(np.abs(force))) + sc_e)
             numE = FD.diff(energies, x, k, h, tol)
             if numE is None:
                 continue
-            err = float(np.max(np.abs(-numE - force[:, k])))
+            force_now = np.array([el.force(i) for i in range(N)])          # read again AFTER the neighbours were computed
+            err = float(np.max(np.abs(-numE - force_now[:, k])))
             if err > tol:
                 problems.append("force is not -dE/dx_%d (max error %.3g)" % (k, err))
                 break
@@ -166,14 +172,16 @@ def oracle_model(args):
             C0 = np.asarray(el._reference)
 
             def coeffs(y):
-                return np.asarray(model.update(y, electronics=el)._reference)
+                e2 = el.update(y, electronics=el) if chained else model.update(y, electronics=el)
+                return np.asarray(e2._reference)
             for k in range(n):
                 tol = 5e-6 * (1 + float(np.max(np.abs(dc))))
                 dC = FD.diff(coeffs, x, k, h, tol)
                 if dC is None:
                     continue
                 num = C0.T @ dC
-                err = float(np.max(np.abs(num - dc[:, :, k])))
+                dc_now = np.asarray(el.derivative_coupling_tensor())
+                err = float(np.max(np.abs(num - dc_now[:, :, k])))
                 if err > tol:
                     problems.append("derivative coupling is not <phi_i|d/dx_%d phi_j> (max error %.3g)" % (k, err))
                     break
@@ -344,6 +352,9 @@ def run(ctx):
                 continue
             x = random_position(rng, model, name)
             spec["x"] = x
+            if r % 2 == 1 and name != "shin-metiu":
+                spec["chained"] = True
+                ctx.count("chained_neighbour_requests")
             try:
                 prev = model.update(random_position(rng, model, name))
                 with ec.EighCapture() as cap:
